@@ -4,17 +4,20 @@
    and prints one verdict line per case:
      <id> OK [note=...] | <id> PROPFAIL <why> | <id> DIFF <why>
 
-   PROPFAIL: AddressSanitizer reported a memory error (or a build crashed with a
-   signal) while the case ran through the SAFE public API, or a data invariant the
-   footprint theorems rely on (symbol codes < K) was observed broken.
-   DIFF: model and implementation disagree without a sanitizer report: the guards of
-   a safe wrapper did not behave as modelled (panic / early return / rows written), a
-   stride differs from the dense layout model, or the footprint model evaluated on the
-   very parameters the kernel was entered with has an access outside the ALLOCATION
-   (rows up to `.capacity()`) that the sanitizer did not see.  A model access outside
-   the owned rows but inside the capacity is invisible to the sanitizer: reported as
-   a note on an OK line (it cannot occur while the guard comparison passes, by the
-   theorems of C06.v). *)
+   PROPFAIL (all of these paths are HAND-WRITTEN in this file — prefix matching on the verdict strings of the children
+   and on `Invariant` records of the harness; the extracted, proved-sound check_C06 decides a PROPFAIL only in the
+   static `srcfp` path for the NEON kernels): a sanitizer report (ASAN(..) / MSAN(never-written-cell)) or a crash of a
+   child (SIGSEGV on a guard page, abort, exit 97 = damaged canary found by a plain child) while the case ran through
+   the SAFE public API; a damaged canary in the spare capacity of a destination; rows() > capacity() of a score
+   matrix; a symbol code >= K left in a caller buffer; from_rows exposing unwritten rows.
+   DIFF (decided with the EXTRACTED model): the guards of a safe wrapper did not behave as modelled (panic / early
+   return / rows written / rows after a panic), a stride differs from the dense layout model, the usize guard
+   (FpUsize) and the Z guard fall into different outcome classes, the history / capacity model (FpHistory.hstep,
+   FpCap.cstep) replayed on the observed pre-state gives another post-state, or check_C06 REJECTS an access of the
+   model's footprint on the parameters the kernel was entered with (by the theorems of C06.v impossible for the
+   kernel and extents the guards admit: the driver then picked another kernel / extent than the code = broken tie);
+   MSan reports on cells written only by non-temporal stores (invisible to it); missing verdicts; hangs.
+   The driver never replaces a number it cannot read by 0 (`gi` / `zs` raise: DIFF driver-exception). *)
 open Footprint_model
 
 let rec nat_of_int n = if n <= 0 then O else S (nat_of_int (n - 1))
@@ -24,6 +27,27 @@ let rec pos_of_int n =
 let z n = if n = 0 then Z0 else if n > 0 then Zpos (pos_of_int n) else Zneg (pos_of_int (-n))
 let rec int_of_pos = function XH -> 1 | XO p -> 2 * int_of_pos p | XI p -> 2 * int_of_pos p + 1
 let iz = function Z0 -> 0 | Zpos p -> int_of_pos p | Zneg p -> - (int_of_pos p)
+
+(* decimal string of any size -> Z (row ranges near usize::MAX do not fit an OCaml int); raises on a non-number:
+   the driver never replaces a value it cannot read by 0 *)
+let zs (str : string) : z =
+  let n = String.length str in
+  if n = 0 then failwith "unparsable-number:(empty)" else
+  let neg = str.[0] = '-' in
+  let start = if neg then 1 else 0 in
+  if start >= n then failwith ("unparsable-number:" ^ str) else begin
+    let acc = ref Z0 in
+    for i = start to n - 1 do
+      let c = Char.code str.[i] - 48 in
+      if c < 0 || c > 9 then failwith ("unparsable-number:" ^ str);
+      acc := Z.add (Z.mul !acc (z 10)) (z c)
+    done;
+    if neg then Z.opp !acc else !acc
+  end
+(* Z -> int for values that are known to be small; a huge value is a marker, not a wrapped int *)
+let zint (v : z) : int =
+  let lim = z 1_000_000_000_000 in
+  if Z.leb (Z.opp lim) v && Z.leb v lim then iz v else min_int
 
 let split c s = if s = "" then [] else String.split_on_char c s
 let kv tok = match String.index_opt tok '=' with
@@ -61,7 +85,7 @@ let dense_stride es c = int_of_nat (stride (nat_of_int es) (nat_of_int c) (nat_o
    call, its events must pass check_C06, and "no event" must coincide with "no kernel entered". *)
 let arm_of = function "avx2" -> AAvx2 | "sse2" -> ASse2 | _ -> AGeneric
 
-let history_step name (gs : string -> string) (gi : string -> int) (outs : string list) (panicked : bool) : issue list =
+let history_step name (gs : string -> string) (gi : string -> int) (gz : string -> z) (outs : string list) (panicked : bool) : issue list =
   let oi k = try int_of_string (List.nth outs k) with _ -> -1 in
   let unk = z (-7) in   (* sentinel: a field hstep must not leave untouched when the op succeeds *)
   let mk ?(e = unk) ?(l = unk) ?(sr = unk) ?(w = unk) ?(m = unk) ?(fr = unk) ?(fi = unk) ?(ur = unk) () =
@@ -71,6 +95,10 @@ let history_step name (gs : string -> string) (gi : string -> int) (outs : strin
   let step pre op = hstep (z k) pstF pstU pre op in
   let bad what = [Guard (Printf.sprintf "history-model:%s:%s" name what)] in
   let events_ok evs = List.for_all (fun e -> check_C06 e.ev_ext e.ev_al e.ev_accs) evs in
+  (* events of the capacity-aware step: inside the owned rows AND inside the allocations as they are at that step *)
+  let cevents_ok cevs = List.for_all (fun ce -> check_C06 ce.ce_ev.ev_ext ce.ce_ev.ev_al ce.ce_ev.ev_accs
+                                               && check_C06 ce.ce_alloc ce.ce_ev.ev_al ce.ce_ev.ev_accs) cevs in
+  let cst ?(scap = -7) ?(fcap = -7) ?(ucap = -7) h = { c_h = h; c_scap = z scap; c_fcap = z fcap; c_ucap = z ucap } in
   match name with
   | "stripe" when not panicked ->
       let pre = mk ~e:(z (gi "L")) () in
@@ -91,22 +119,26 @@ let history_step name (gs : string -> string) (gi : string -> int) (outs : strin
       else if List.length outs > 2 then begin
         (* capacity (FpCap.cstep, the subject of C06_histories_allocation_partial): a configure_wrap that fits into the
            capacity keeps the allocation; otherwise the new allocation (capacity chosen by std: observed) holds the rows *)
-        let (cpost, _) = cstep (z k) pstF pstU { c_h = pre; c_scap = z (gi "scap") } (CBase (HConfigure (z (gi "m")), z (oi 2))) in
+        let (cpost, _) = cstep (z k) pstF pstU (cst ~scap:(gi "scap") pre) (CBase (HConfigure (z (gi "m")), z (oi 2))) in
         if iz cpost.c_scap <> oi 2 then
           bad (Printf.sprintf "capacity-after=%d-model=%d(rows=%d,capacity-before=%d)" (oi 2) (iz cpost.c_scap) (oi 0) (gi "scap"))
         else []
       end else []
   | "exact" ->
       (* clone: the copy of the sequence matrix is an exact allocation (fp_clone_allocation_exact) *)
-      let pre = mk ~sr:(z (gi "SR")) () in
-      let (cpost, _) = cstep (z k) pstF pstU { c_h = pre; c_scap = z (-7) } CCloneSeq in
+      let pre = mk ~sr:(z (gi "SR")) ~fr:(z (gi "FR")) ~ur:(z (gi "UR")) () in
+      let (cpost, _) = cstep (z k) pstF pstU (cst pre) CCloneSeq in
+      let (cpost2, _) = cstep (z k) pstF pstU (cst pre) CCloneScores in
       if iz cpost.c_scap <> oi 0 then
-        bad (Printf.sprintf "clone-capacity=%d-model=%d(the-copy-is-not-an-exact-allocation)" (oi 0) (iz cpost.c_scap)) else []
+        bad (Printf.sprintf "clone-capacity=%d-model=%d(the-copy-is-not-an-exact-allocation)" (oi 0) (iz cpost.c_scap))
+      else if iz cpost2.c_fcap <> oi 1 || iz cpost2.c_ucap <> oi 2 then
+        bad (Printf.sprintf "clone-capacity-of-the-score-matrices=%d,%d-model=%d,%d" (oi 1) (oi 2) (iz cpost2.c_fcap) (iz cpost2.c_ucap))
+      else []
   | "newseq" when not panicked ->
       (* StripedSequence::new(DenseMatrix::new(rows), L): Err(InvalidData) iff rows * C < L; wrap = 0 *)
       let err = (List.hd outs = "E") in
       let capobs = if err then 0 else oi 1 in
-      let (cpost, _) = cstep (z k) pstF pstU { c_h = mk (); c_scap = z (-7) } (CNewSeq (z (gi "rows"), z (gi "L"), z capobs)) in
+      let (cpost, _) = cstep (z k) pstF pstU (cst (mk ())) (CNewSeq (z (gi "rows"), z (gi "L"), z capobs)) in
       let err_model = (iz cpost.c_h.hSR = -7) in
       if err <> err_model then bad (Printf.sprintf "error=%b-model=%b" err err_model)
       else if err then []
@@ -118,7 +150,7 @@ let history_step name (gs : string -> string) (gi : string -> int) (outs : strin
       let pre = mk ~l:(z (gi "L")) ~sr:(z (gi "SR")) ~w:(z (gi "wrap")) ~m:(z (gi "M")) () in
       let f32 = gi "es" = 4 in
       let a = arm_of (gs "arm") in
-      let op = if f32 then HScoreF32 (a, z (gi "a"), z (gi "b")) else HScoreU8 (a, z (gi "a"), z (gi "b")) in
+      let op = if f32 then HScoreF32 (a, gz "a", gz "b") else HScoreU8 (a, gz "a", gz "b") in
       let (post, evs) = step pre op in
       let rows_model = iz (if f32 then post.hFR else post.hUR) in
       let drows = if gs "drows" = "" then -7 else gi "drows" in
@@ -138,10 +170,18 @@ let history_step name (gs : string -> string) (gi : string -> int) (outs : strin
       else if not (events_ok evs) then bad "event-fails-check_C06"
       else begin
         (* the capacity-aware step (FpCap.cstep): same kernel entry, extents of the sequence matrix = its allocation *)
-        let (cpost, cevs) = cstep (z k) pstF pstU { c_h = pre; c_scap = z (gi "scap") } (CBase (op, z 0)) in
+        (* pre-state of the destination = observed rows / capacity before the call; the capacity std chose if the
+           resize reallocated = observed capacity after the call *)
+        let dcap = if gs "dcap" = "" then oi 1 else gi "dcap" in
+        let pre_c = if f32 then cst ~scap:(gi "scap") ~fcap:dcap ~ucap:0 { pre with hFR = z (max drows 0); hUR = z 0 }
+                    else cst ~scap:(gi "scap") ~fcap:0 ~ucap:dcap { pre with hUR = z (max drows 0); hFR = z 0 } in
+        let (cpost, cevs) = cstep (z k) pstF pstU pre_c (CBase (op, z (oi 1))) in
+        let dcap_model = iz (if f32 then cpost.c_fcap else cpost.c_ucap) in
         if List.length cevs <> List.length evs || iz cpost.c_scap <> gi "scap" then bad "capacity-model-differs-from-history-model"
         else if gi "scap" < gi "SR" then bad (Printf.sprintf "capacity=%d-below-rows=%d" (gi "scap") (gi "SR"))
-        else if not (events_ok cevs) then bad "event-outside-the-allocation"
+        else if dcap_model <> oi 1 then
+          bad (Printf.sprintf "score-matrix-capacity-after=%d-model=%d(rows-before=%d,capacity-before=%d,rows-after=%d)" (oi 1) dcap_model drows dcap (oi 0))
+        else if not (cevents_ok cevs) then bad "event-outside-the-allocation"
         else []
       end
   | ("enc" | "encuse") ->
@@ -175,7 +215,10 @@ let handle_record (r : string) : issue list =
   | [name; params; out] ->
       let f = List.map kv (split ',' params) in
       let gs k = try List.assoc k f with Not_found -> "" in
-      let gi k = try int_of_string (List.assoc k f) with _ -> 0 in
+      let gi k = match List.assoc_opt k f with
+        | None -> 0
+        | Some v -> (match int_of_string_opt v with Some n -> n | None -> failwith ("unparsable-number:" ^ k ^ "=" ^ v)) in
+      let gz k = match List.assoc_opt k f with None -> Z0 | Some v -> zs v in
       let outs = split ',' out in
       let oi k = try int_of_string (List.nth outs k) with _ -> -1 in
       (* a panicking scoring call prints `P,<rows>,<capacity>` of the score matrix as the unwinding call left it *)
@@ -201,7 +244,7 @@ let handle_record (r : string) : issue list =
               Some accs
             end
         | _ -> add [Guard (name ^ ":model-error")]; None in
-      (try add (history_step name gs gi outs panicked)
+      (try add (history_step name gs gi gz outs panicked)
        with e -> add [Guard ("history-model:exception:" ^ Printexc.to_string e)]);
       (match name with
        | "enc" | "encuse" ->
@@ -254,7 +297,8 @@ let handle_record (r : string) : issue list =
              let es = gi "es" and k = gi "K" in
              let c = if gs "C" = "" then 32 else gi "C" in
              let p = { pK = z k; pL = z (gi "L"); pSR = z (gi "SR"); pwrap = z (gi "wrap"); pM = z (gi "M");
-                       pa = z (gi "a"); pb = z (gi "b"); psst = z (gi "sst"); ppst = z (gi "pst"); pdst = z (gi "dst") } in
+                       pa = gz "a"; pb = gz "b"; psst = z (gi "sst"); ppst = z (gi "pst"); pdst = z (gi "dst") } in
+             let range_len = zint (Z.sub p.pb p.pa) in
              stride_check "seq" (gi "sst") 1 c;
              stride_check "pssm" (gi "pst") es k;
              stride_check "scores" (gi "dst") es c;
@@ -279,7 +323,20 @@ let handle_record (r : string) : issue list =
              end;
              if (not panicked) && List.length outs > 2 && oi 2 >= 0 then
                add [Invariant (Printf.sprintf "write-past-the-owned-rows(inside-capacity):%s-damaged-canary-at-byte-%d(%s)" name (oi 2) params)];
-             match guard_cmp g ~rows_entered:(gi "b" - gi "a") ~observed_rows:(oi 0) with
+             (* the guards as the code computes them, in usize (FpUsize.score_guard_usize; theorems
+                fp_usize_guard_...): with and without overflow checks the outcome class (enters / returns early / panics)
+                must be that of the Z guard the theorems of C06.v speak about *)
+             let code = function Ok (Entered _) -> 2 | Ok Skipped -> 1 | _ -> 0 in
+             if gs "arm" = "avx2" || (gs "arm" = "sse2" && es = 4) then begin
+               let rb = z (gi "dst" * es) in
+               List.iter (fun release ->
+                 let u = score_guard_usize release rb p (fun () -> []) in
+                 if code u <> code g then
+                   add [Guard (Printf.sprintf "%s:usize-guard(%s)=%d-Z-guard=%d(2=enters,1=returns,0=panics;%s)" name
+                                 (if release then "release" else "overflow-checks") (code u) (code g) params)])
+                 [false; true]
+             end;
+             match guard_cmp g ~rows_entered:range_len ~observed_rows:(oi 0) with
              | Some accs -> add (check kname (ext_score (z es) p) balign_mat_src cap accs)
              | None -> ()
            end
@@ -379,7 +436,9 @@ let srcfp_line (line : string) : string =
   let id = List.hd toks in
   let f = List.map kv (List.tl toks) in
   let gs k = try List.assoc k f with Not_found -> "" in
-  let gi k = try int_of_string (List.assoc k f) with _ -> 0 in
+  let gi k = match List.assoc_opt k f with
+    | None -> 0
+    | Some v -> (match int_of_string_opt v with Some n -> n | None -> failwith ("unparsable-number:" ^ k ^ "=" ^ v)) in
   let parse_acc t = match String.split_on_char ':' t with
     | [b; o; w; rw; al] -> (int_of_string b, int_of_string o, int_of_string w, rw = "w", int_of_string al)
     | _ -> failwith ("bad access " ^ t) in
